@@ -781,12 +781,10 @@ func (e *Env) bindElem(q *bx.Quant, isMap bool, key string, idx int) int {
 	case bx.BindValue:
 		e.binds = append(e.binds, binding{name: q.Value, path: path})
 	case bx.BindBoth:
-		if isMap {
-			e.binds = append(e.binds, binding{name: q.Index, val: keyVal}, binding{name: q.Value, path: path})
-		} else {
-			// lists: index first, then value (value shadows on equal names, which is rejected earlier)
-			e.binds = append(e.binds, binding{name: q.Index, val: keyVal}, binding{name: q.Value, path: path})
-		}
+		// The value name stands for the element S.<key>, S being resolved outside
+		// the braces: its expansion is looked up in the bindings that were in
+		// scope there, i.e. never through this quantifier's own index name.
+		e.binds = append(e.binds, binding{name: q.Value, path: path}, binding{name: q.Index, val: keyVal})
 	}
 	return n0
 }
